@@ -22,18 +22,34 @@ def call_method(eng, bm, args, kwargs, node):
     if isinstance(obj, Rec) and ":" in obj.cls:
         modname, cls = obj.cls.split(":")
         mod = source.load(modname)
-        qual = f"{cls}.{name}"
         cur = cls
+        foreign = None
+        if getattr(bm, "sup", None):
+            # super().name(...): the lookup starts at the bases of the class the running method is defined in
+            b = mod.classes[bm.sup].bases[0] if bm.sup in mod.classes and mod.classes[bm.sup].bases else None
+            bname = b.id if hasattr(b, "id") else None
+            if bname in mod.classes:
+                cur = bname
+            else:
+                cur, foreign = None, b
+        qual = f"{cur}.{name}"
         # single inheritance inside the same module is resolved syntactically
-        while qual not in mod.functions and cur in mod.classes and mod.classes[cur].bases:
+        while cur is not None and qual not in mod.functions and cur in mod.classes and mod.classes[cur].bases:
             b = mod.classes[cur].bases[0]
             bname = b.id if hasattr(b, "id") else None
             if bname in mod.classes:
                 cur = bname
                 qual = f"{cur}.{name}"
             else:
+                foreign = b
                 break
         key = f"{modname}:{qual}"
+        if (cur is None or (qual not in mod.functions and key not in eng.registry)) and foreign is not None \
+                and "nodes" in obj.fields and "adj" in obj.fields:
+            # the method is inherited from a class outside the repository (networkx.Graph / vermouth Molecule): graph model
+            import ast as _ast
+            if _ast.unparse(foreign) in ("nx.Graph", "networkx.Graph", "Molecule", "vermouth.molecule.Molecule", "nx.DiGraph"):
+                return graph_method(eng, bm, obj, name, args, kwargs, node)
         if qual in mod.functions or key in eng.registry:
             fr = FuncRef(modname, qual)
             return eng.call_repo(fr, [obj] + list(args), kwargs, node, self_path=bm.path) if key not in eng.registry or eng.registry[key].inline \
@@ -99,13 +115,33 @@ def graph_method(eng, bm, obj, name, args, kwargs, node):
         return d
     if name == "has_node":
         return z3.Select(nodes.dom, key_term(nodes.k, args[0]))
+    if name == "add_node" and len(args) == 1:
+        # G.add_node(n, **attrs): every field of the node-attribute record must be given (optional fields default to absent)
+        vt = nodes.v
+        given = dict(kwargs)
+        fields = {}
+        for f, ft in vt.fields.items():
+            if f in given:
+                v = given.pop(f)
+                fields[f] = Opt(False, v) if type(ft).__name__ == "TOpt" else v
+            elif type(ft).__name__ == "TOpt":
+                fields[f] = Opt(True, ft.t.fresh("absent"))
+            else:
+                raise Unsupported(f"add_node without the attribute {f!r} of the node record")
+        if given:
+            raise Unsupported(f"add_node with attributes {sorted(given)} that the node record does not have")
+        kt = key_term(nodes.k, args[0])
+        fl = vt.flat(Rec(vt.cls, fields))
+        # an existing node keeps attributes that are not given: all fields are given here, so the entry is replaced
+        new_nodes = type(nodes)(nodes.k, nodes.v, z3.Store(nodes.dom, kt, True), [z3.Store(c, kt, x) for c, x in zip(nodes.comps, fl)])
+        _wb(eng, bm, obj.with_field("nodes", new_nodes))
+        return None
     if name == "add_edge" and len(args) == 2 and not kwargs:
         a, b = args
         for x in (a, b):
-            if not isinstance(nodes.v, type(nodes.v)) or nodes.v.sorts():
-                # endpoints that are not nodes yet would be created with empty attributes: only graphs whose node table has
-                # all-optional attributes could express that
-                eng.may_raise("Unsupported", b_not(z3.Select(nodes.dom, key_term(nodes.k, x))), node, "add_edge creating a node")
+            # an endpoint that is not a node yet would be created with empty attributes, which the node record cannot express:
+            # the call site must establish that both endpoints exist (obligation)
+            eng.oblige("model", f"add_edge endpoints exist@{eng.site(node)}", z3.Select(nodes.dom, key_term(nodes.k, x)), node)
         new_dom = z3.Store(z3.Store(adj.dom, key_term(adj.k, (a, b)), True), key_term(adj.k, (b, a)), True)
         _wb(eng, bm, obj.with_field("adj", SSet(adj.k, new_dom)))
         return None
